@@ -341,7 +341,7 @@ pub fn run_c11(ctx: &mut Ctx) {
         ctx.stats.extra.insert("large_constructed_sizes".into(), json!(sizes));
     }
     {
-        let deep: Vec<usize> = tier.pick(vec![2100, 5000, 12_000, 20_000, 40_000], vec![2100, 5000, 12_000, 20_000, 40_000, 65_000]);
+        let deep: Vec<usize> = tier.pick(vec![2100, 5000, 12_000, 20_000, 40_000, 70_000], vec![2100, 5000, 12_000, 20_000, 40_000, 70_000, 140_000, 300_000]);
         let jobs: Vec<(&str, usize)> = DEEP_SHAPES.iter().flat_map(|s| deep.iter().map(move |n| (*s, *n))).collect();
         let part = parallel(jobs.len(), |w| {
             wd.tick();
@@ -466,7 +466,7 @@ pub fn replay_c11(v: &Value, st: &mut Stats) -> Result<(), String> {
     if v["kind"] == "scc-deep" {
         let shape = v["shape"].as_str().unwrap_or("chain");
         let n = v["n"].as_u64().unwrap_or(5000) as usize;
-        if !DEEP_SHAPES.contains(&shape) || n < 4 || n > 65000 {
+        if !DEEP_SHAPES.contains(&shape) || n < 4 || n > 400_000 {
             return Err("malformed deep case".into());
         }
         st.merge(scc_deep_all(shape, n, v["flavour"].as_str()));
